@@ -412,4 +412,17 @@ Proof.
     simpl. ring.
 Qed.
 
+(* pinned tree: the triangular density divides 0.0 by 0.0 at x = lo = mode *)
+Lemma pinned_triangular_density_raises :
+  pdf NR true (DTriangular 1 1 2) 1 = Err (Raise EZeroDiv) /\
+  exists v, pdf NR false (DTriangular 1 1 2) 1 = Val v /\ v = 2.
+Proof.
+  unfold pdf, tri_pdf. unfold zero, two; nr. split.
+  - rewrite (proj2 (Rleb_true 1 1)) by lra. cbn [andb].
+    replace ((2 - 1) * (1 - 1)) with 0 by ring. unfold r_div.
+    destruct (Req_EM_T 0 0); [reflexivity|contradiction].
+  - rewrite (proj2 (Rleb_true 1 1)), (proj2 (Rltb_false 1 1)) by lra. cbn [andb].
+    rewrite (proj2 (Reqb_true 1 1) eq_refl). rewrite r_div_val by lra. eexists; split; [reflexivity|]. field.
+Qed.
+
 End DensityR.
